@@ -42,7 +42,8 @@ func Harness_C03_SelfCertifying() {
 	if verifrt.Choose("type", 2) == 1 {
 		c.Suffix.Type = verifrt.AnyAtom("suffix-type")
 	}
-	ns := "did:" + verifrt.AnyAtom("method")
+	// the namespace is whatever the caller configures: also one that ends with the delimiter or has further segments
+	ns := "did:" + verifrt.AnyAtom("method") + []string{"", ":", ":sub", "::"}[verifrt.Choose("namespace-tail", 4)]
 	parser := New(p)
 	withinLimits(p, c)
 	op, err := parser.Parse(ns, gen.JSON(c.Request))
